@@ -5,6 +5,8 @@ package main
 
 import (
 	"bytes"
+	"sync"
+	"regexp"
 	"fmt"
 	"sort"
 	"context"
@@ -56,8 +58,14 @@ func writeReplay(o *Options, ob *Obligation) replayResult {
 			res.reproduced = true
 		}
 	}
-	if res.reproduced && model == "" {
-		rf.Note = "the solver gave no model (unknown / timeout); a small-scope search over inputs of the real function found an input on which the property-level oracle fails (see replay_on_real_code)"
+	searched := false
+	if rf.Replay != nil {
+		if h, _ := rf.Replay["how"].(string); strings.HasPrefix(h, "small-scope") {
+			searched = true
+		}
+	}
+	if res.reproduced && (model == "" || searched) {
+		rf.Note = "no solver model describes a run of the real code here (unknown / timeout, or the failed obligation is about an intermediate state); a small-scope search over inputs / runs of the real code found one on which the property-level oracle fails (see replay_on_real_code)"
 	} else if res.reproduced {
 		rf.Note = "the solver's counterexample was replayed against the real code and the property-level oracle failed"
 	} else {
@@ -183,6 +191,14 @@ func goValue(w *World, v *sexp) interface{} {
 }
 
 var theWorld *World
+
+type replayMemoEntry struct {
+	out    string
+	failed bool
+}
+
+var replayMemo = map[string]replayMemoEntry{}
+var replayMemoMu sync.Mutex
 
 // observedArgs turns the values of the observation terms (get-value output after the marker
 // OBSERVED) into Go literals for the integer-slice and integer-map parameters:
@@ -314,7 +330,22 @@ func replayOnRealCode(o *Options, ob *Obligation, model string) map[string]inter
 	tmplPath := filepath.Join(o.verif, "replay", "templates", sane(ob.Func)+".go.tmpl")
 	tb, err := os.ReadFile(tmplPath)
 	if err != nil {
-		return nil
+		// package-level search templates (replay/templates/MAP.txt)
+		mb, _ := os.ReadFile(filepath.Join(o.verif, "replay", "templates", "MAP.txt"))
+		for _, l := range strings.Split(string(mb), "\n") {
+			f := strings.Split(l, "\t")
+			if len(f) != 2 || strings.HasPrefix(l, "#") {
+				continue
+			}
+			if re, e := regexp.Compile(f[0]); e == nil && re.MatchString(ob.Func) {
+				tb, err = os.ReadFile(filepath.Join(o.verif, "replay", "templates", strings.TrimSpace(f[1])))
+				model = "" // these templates search, they do not take a model
+				break
+			}
+		}
+		if err != nil || tb == nil {
+			return nil
+		}
 	}
 	var q *Query
 	for _, j := range ob.Queries {
@@ -324,6 +355,9 @@ func replayOnRealCode(o *Options, ob *Obligation, model string) map[string]inter
 		}
 	}
 	search := q == nil || model == ""
+	if model == "" {
+		q = nil
+	}
 	if search {
 		// no model: only templates that can search for a failing input themselves are of use
 		if !strings.Contains(string(tb), "small-scope search") || len(ob.Queries) == 0 {
@@ -371,7 +405,22 @@ func replayOnRealCode(o *Options, ob *Obligation, model string) map[string]inter
 	}
 	store := filepath.Join(o.verif, "replays", o.prop+"-"+sane(ob.Name)+"_test.go.txt")
 	_ = os.WriteFile(store, buf.Bytes(), 0o644)
-	out, failed := runOverlayTest(modDir, rel, buf.Bytes())
+	// the same rendered test is run once per check run (several obligations of one package
+	// share a search template)
+	memoKey := modDir + "|" + rel + "|" + buf.String()
+	replayMemoMu.Lock()
+	m, hit := replayMemo[memoKey]
+	replayMemoMu.Unlock()
+	var out string
+	var failed bool
+	if hit {
+		out, failed = m.out, m.failed
+	} else {
+		out, failed = runOverlayTest(modDir, rel, buf.Bytes())
+		replayMemoMu.Lock()
+		replayMemo[memoKey] = replayMemoEntry{out, failed}
+		replayMemoMu.Unlock()
+	}
 	how := "the model's arguments, go test -overlay (in-package test injected without writing to /repo), -run TestVerifReplay"
 	if search {
 		how = "small-scope search for a failing input (the solver gave no model), go test -overlay, -run TestVerifReplay"
@@ -397,7 +446,7 @@ func runOverlayTest(modDir, rel string, src []byte) (string, bool) {
 	if rel == "" {
 		pat = "."
 	}
-	cmd := exec.CommandContext(ctx, "go", "test", "-overlay", ovFile, "-vet=off", "-count=1", "-timeout", "60s", "-run", "^TestVerifReplay$", pat)
+	cmd := exec.CommandContext(ctx, "go", "test", "-overlay", ovFile, "-vet=off", "-v", "-count=1", "-timeout", "120s", "-run", "^TestVerifReplay$", pat)
 	cmd.Dir = modDir
 	cmd.Env = append(os.Environ(), "GOFLAGS=-mod=mod", "GOPROXY=off", "GOSUMDB=off", "GOTOOLCHAIN=local")
 	b, err := cmd.CombinedOutput()
